@@ -100,6 +100,9 @@ def revolute_jac(h, first="F", what="joint", axis=2, seed=0, concrete_orientatio
             rp.el = KelvinVoigtElement(rp.joint, k, d, l_ref=lref, compliance_form=False)
         elif what == "KelvinVoigtC":
             rp.el = KelvinVoigtElement(rp.joint, k, d, l_ref=lref, compliance_form=True)
+        elif what == "Maxwell":
+            from cardillo.force_laws import MaxwellElement
+            rp.el = MaxwellElement(rp.joint, k, h.pos("eta"), l_ref=lref)
         elif what == "Motor":
             rp.el = Motor(rp.joint, lambda t: tau(t)[0])
         elif what == "PD":
@@ -128,6 +131,13 @@ def revolute_jac(h, first="F", what="joint", axis=2, seed=0, concrete_orientatio
     if what in ("Spring", "KelvinVoigt"):
         h.eq("h_q", h.D(lambda q_: el.h(t, q_[qE], u[uE]), (q,), (dq,)), el.h_q(t, q[qE], u[uE]) @ dq[qE])
         h.eq("h_u", h.D(lambda u_: el.h(t, q[qE], u_[uE]), (u,), (du,)), el.h_u(t, q[qE], u[uE]) @ du[uE])
+    elif what == "Maxwell":
+        h.eq("Maxwell h_q", h.D(lambda q_: el.h(t, q_[qE], u[uE]), (q,), (dq,)), el.h_q(t, q[qE], u[uE]) @ dq[qE])
+        h.eq("Maxwell q_dot_q", h.D(lambda q_: el.q_dot(t, q_[qE], u[uE]), (q,), (dq,)), el.q_dot_q(t, q[qE], u[uE]) @ dq[qE])
+        h.eq("Maxwell q_dot_u", h.D(lambda u_: el.q_dot(t, q[qE], u_[uE]), (u,), (du,)), el.q_dot_u(t, q[qE]) @ du[uE])
+        hs = h.call("System.h_q evaluates", sysm.h_q, t, q, u)
+        if hs is not None:
+            h.eq("System.h_q = element h_q scattered", np.asarray(hs.toarray())[np.ix_(uE, qE)], el.h_q(t, q[qE], u[uE]))
     elif what == "KelvinVoigtC":
         la, dla = h.real("la"), h.real("dla")
         h.eq("c_q", h.D(lambda q_: el.c(t, q_[qE], u[uE], la), (q,), (dq,)), el.c_q(t, q[qE], u[uE], la) @ dq[qE])
@@ -168,7 +178,7 @@ def cases(tier, seed):
     for kind in ("Force", "B_Force", "Moment", "B_Moment"):
         cs.append(Case(f"force/{kind}", force_jac, dict(kind=kind, seed=seed), timeout=T))
     for first in ("F", "RB"):
-        for what in ("joint", "Spring", "KelvinVoigt", "KelvinVoigtC", "Motor", "PD", "PID"):
+        for what in ("joint", "Spring", "KelvinVoigt", "KelvinVoigtC", "Maxwell", "Motor", "PD", "PID"):
             for axis in (((seed + 1) % 3,) if tier == "quick" else (0, 1, 2)):
                 cs.append(Case(f"revolute/{first}/{what}/ax{axis}", revolute_jac,
                                dict(first=first, what=what, axis=axis, seed=seed, concrete_orientation=(tier == "quick")), timeout=T, hard=T * 10))
